@@ -7,6 +7,9 @@ package main
 // source's logical values.
 
 import (
+	"path/filepath"
+	"os"
+	"io/ioutil"
 	"bufio"
 	"bytes"
 	"encoding/json"
@@ -78,6 +81,8 @@ type fsCfg struct {
 	Target         fsTarget `json:"target"`
 	Sched          string   `json:"sched"` // free | random | victim
 	RdbVersion     int      `json:"rdb_version"`
+	Files          int      `json:"files"`        // restore-main: the entries are spread over this many input files (default 1)
+	RdbParallel    int      `json:"rdb_parallel"` // restore-main: source.rdb.parallel
 }
 
 type fsCase struct {
@@ -342,15 +347,32 @@ func fsOne(tr *tracer.T, seed int64, c *fsCase) int {
 	if ver == 0 {
 		ver = 9
 	}
-	f := rdbref.NewFile(ver)
-	if ver >= 7 {
-		f.Aux([]byte("redis-ver"), []byte("5.0.7"))
+	nfiles := 1
+	if c.Cfg.Mode == "restore-main" && c.Cfg.Files > 1 {
+		nfiles = c.Cfg.Files
 	}
+	fls := make([]*rdbref.File, nfiles)
+	curDbs := make([]int, nfiles)
+	for i := range fls {
+		fls[i] = rdbref.NewFile(ver)
+		if ver >= 7 {
+			fls[i].Aux([]byte("redis-ver"), []byte("5.0.7"))
+		}
+		curDbs[i] = -1
+	}
+	f := fls[0]
 	var keys []*fsSrcKey
 	var scripts [][]byte
 	curDb := -1
 	for i := range c.Entries {
 		e := &c.Entries[i]
+		// (several input files: entry i goes to file i mod n; each file keeps its own selected database)
+		fi := i % nfiles
+		if e.Kind == "lua" {
+			fi = 0
+		}
+		f = fls[fi]
+		curDb = curDbs[fi]
 		if e.Kind == "lua" {
 			body := []byte(fmt.Sprintf("return %d", e.Id))
 			f.Aux([]byte("lua"), body)
@@ -363,6 +385,7 @@ func fsOne(tr *tracer.T, seed int64, c *fsCase) int {
 				f.ResizeDB(uint64(len(c.Entries)), 1)
 			}
 			curDb = e.Db
+			curDbs[fi] = e.Db
 		}
 		if c.Cfg.Mode == "incr" {
 			e.Kind = "incr-string"
@@ -403,7 +426,11 @@ func fsOne(tr *tracer.T, seed int64, c *fsCase) int {
 		}
 		keys = append(keys, k)
 	}
-	file := f.Finish(true)
+	file := fls[0].Finish(true)
+	var moreFiles [][]byte
+	for _, x := range fls[1:] {
+		moreFiles = append(moreFiles, x.Finish(true))
+	}
 	ents := []map[string]interface{}{}
 	for _, k := range keys {
 		ents = append(ents, map[string]interface{}{"id": k.e.Id, "db": k.e.Db, "key": k.e.Key, "kind": k.val.Kind, "type": int(k.typ),
@@ -479,6 +506,28 @@ func fsOne(tr *tracer.T, seed int64, c *fsCase) int {
 		ab, pan = runAbortable(func() {
 			run.VerifRestoreRDBFile(rdr, []string{addr}, "auth", "tgt-SECRET-pw", int64(len(file)), false)
 		})
+	case "restore-main":
+		// the whole restore command: input files on disk, source.rdb.parallel workers over them, round-robin target choice
+		dir, _ := ioutil.TempDir("", "vdrv-restore-")
+		defer os.RemoveAll(dir)
+		var inputs []string
+		for i, b := range append([][]byte{file}, moreFiles...) {
+			p := filepath.Join(dir, fmt.Sprintf("in-%d.rdb", i))
+			ioutil.WriteFile(p, b, 0644)
+			inputs = append(inputs, p)
+		}
+		conf.Options.Type = conf.TypeRestore
+		conf.Options.SourceRdbInput = inputs
+		conf.Options.SourceRdbParallel = c.Cfg.RdbParallel
+		if conf.Options.SourceRdbParallel <= 0 {
+			conf.Options.SourceRdbParallel = 1
+		}
+		conf.Options.TargetAddressList = []string{addr}
+		conf.Options.TargetAuthType, conf.Options.TargetPasswordRaw = "auth", "tgt-SECRET-pw"
+		conf.Options.TargetTLSEnable = false
+		conf.Options.HttpProfile = -1
+		conf.Options.ExtraInfo = false
+		ab, pan = runAbortable(func() { (&run.CmdRestore{}).Main() })
 	case "entry":
 		ab, pan = runAbortable(func() {
 			conn, err := utils.OpenRedisConn([]string{addr}, "auth", "tgt-SECRET-pw", false, false)
